@@ -37,6 +37,10 @@ func genC09(g *Gen, tier string) *Program {
 	for i := g.Range(2, 5); i > 0; i-- {
 		script = append(script, step{g.Intn(3), kinds[g.Intn(4)], pick(g, "x", "y")})
 	}
+	// histograms use bucket sets that collide in the root's shared bucket cache;
+	// the set is tied to the name, so one identity always has one set
+	fam := collidingFamily(g)
+	specFor := map[string]*BucketSpec{"x": fam[0], "y": fam[1%len(fam)]}
 	for t := 0; t < n; t++ {
 		var ops []Op
 		have := map[int]int{0: 0}
@@ -66,7 +70,7 @@ func genC09(g *Gen, tier string) *Program {
 			}
 			op := Op{K: st.kind, S: sv, M: nextM, Name: st.kind[:1] + st.name}
 			if st.kind == "hist" {
-				op.B = &BucketSpec{Bits: []uint64{f64bits(1), f64bits(2)}}
+				op.B = specFor[st.name]
 			}
 			ops = append(ops, op)
 			switch st.kind {
@@ -77,7 +81,11 @@ func genC09(g *Gen, tier string) *Program {
 			case "timer":
 				ops = append(ops, Op{K: "rec", M: nextM, I: int64(1000*t + si + 1)})
 			case "hist":
-				ops = append(ops, Op{K: "recv", M: nextM, F: f64bits(pick(g, 0.5, 1.5, 3))})
+				if sp := specFor[st.name]; sp.Dur {
+					ops = append(ops, Op{K: "recd", M: nextM, I: sp.Durs[g.Intn(len(sp.Durs))]})
+				} else {
+					ops = append(ops, Op{K: "recv", M: nextM, F: sp.Bits[g.Intn(len(sp.Bits))]})
+				}
 			}
 			nextM++
 		}
@@ -161,6 +169,15 @@ func checkC09(env *Env) []Violation {
 				}
 			}
 		}
+	}
+	// histograms: each keeps its own bounds although the sets collide in the cache
+	{
+		ci := newCloseInfo(env, ops)
+		hs := collectHists(env, ops, ci)
+		if env.Cached != nil {
+			out = append(out, checkTilingEvents(env, hs)...)
+		}
+		out = append(out, checkBucketDeliveries(env, ops, hs)...)
 	}
 	// timers: every recorded value delivered exactly once (C10 in detail; here as
 	// "everything recorded through any of the returned handles is delivered")
